@@ -284,6 +284,12 @@ class RlaFromArray(Family):
         ctx.add_index(p, p + 1, p - 1)
         ctx.prove("post.no change inside a run", z3.Not(ne(x.fn(p - 1), x.fn(p))), live=[t])
         ctx.prove("post.input not modified", z3.BoolVal(x.buf.writes == 0))
+        # the contract as the round-trip lemma uses it (same formulas)
+        ground, schemas = contract_from_array(x.fn, n, ev.get, va.get, m, ne)
+        ctx.prove("contract.ground facts", z3.And(*ground))
+        ctx.prove("contract." + schemas[0][0], schemas[0][1](t), live=[t])
+        ctx.prove("contract." + schemas[1][0], schemas[1][1](t, p), live=[t, p])
+        ctx.prove("contract." + schemas[2][0], schemas[2][1](t), live=[t])
 
     def concrete(self, case):
         from npstructures import RunLengthArray
@@ -378,6 +384,9 @@ class RlaToArray(Family):
         ctx.skolem(z3.And(0 <= p, p < n, 0 <= t, t < m, E(t) <= p, p < E(t + 1)))
         ctx.prove_then_assume("post.lemma: the run containing p is unique", run_(p) == t, pool=[p, t, t + 1, run_(p), run_(p) + 1])
         ctx.prove("post.result[p] == values[run containing p] (bit pattern)", out.get(p) == V(t), pool=[p, t])
+        ground, schemas = contract_to_array(E, V, m, out.get, dim_term(out.shape_[0]))
+        ctx.prove("contract.ground facts", z3.And(*ground))
+        ctx.prove("contract." + schemas[0][0], schemas[0][1](t, p), pool=[p, t])
         ctx.prove("post.operand not modified", z3.BoolVal(a.va.buf.writes == 0 and a.ev.buf.writes == 0))
 
     def concrete(self, case):
@@ -550,6 +559,23 @@ class RlaConcatenate(Family):
             return {"msg": f"concatenate of rla({case['a']}) variants: {got}", "sig": "wrong:rla-concatenate"}
 
     bounded_cases = RlaUfunc.bounded_cases
+
+
+def contract_from_array(xf, n, E, V, m, NE):
+    """caller-visible contract of RunLengthArray.from_array(x) (x of length n >= 1) -> events E[0..m], values V[0..m-1]; NE is numpy's != on the
+    element type.  Proved in RlaFromArray (contract.*), assumed by the round-trip lemma."""
+    ground = [m >= 1, E(0) == 0, E(m) == n]
+    A = lambda t: z3.Implies(z3.And(0 <= t, t < m), z3.And(E(t) < E(t + 1), V(t) == xf(E(t))))
+    B = lambda t, p: z3.Implies(z3.And(0 <= t, t < m, E(t) < p, p < E(t + 1)), z3.Not(NE(xf(p - 1), xf(p))))
+    C = lambda t: z3.Implies(z3.And(0 <= t, t + 1 < m), NE(xf(E(t + 1) - 1), xf(E(t + 1))))
+    return ground, [("from_array.runs", A, 1), ("from_array.constant-inside-a-run", B, 2), ("from_array.adjacent-runs-differ", C, 1)]
+
+
+def contract_to_array(E, V, m, out, out_len):
+    """caller-visible contract of RunLengthArray.to_array() on a canonical array: length E[m]; position p of run t holds V[t] (bit for bit)."""
+    ground = [out_len == E(m)]
+    A = lambda t, p: z3.Implies(z3.And(0 <= t, t < m, E(t) <= p, p < E(t + 1)), out(p) == V(t))
+    return ground, [("to_array.decodes", A, 2)]
 
 
 def contract_remove_empty(E, V, k, e2, v2, k2, rho, src):
@@ -1393,3 +1419,52 @@ class RlaSum(Family):
         return {"a": [3, 3, -5, 7, 7, 7]}
 
     bounded_cases = RlaUfunc.bounded_cases
+
+
+@register
+class RlaRoundTrip(Family):
+    """C14's first sentence as a lemma over the two proved contracts: decoding an encoded array gives the original, element by element.
+    Hypotheses: exactly the contract formulas of from_array and to_array (shared with their proofs).  bits: elements are bit patterns and != is
+    inequality of patterns - the decoded array is identical.  abstract: != is numpy's uninterpreted relation - position p of run t holds the
+    element at the run's start and no neighbouring pair between the start and p is != (so NaN, which is != itself, never lies inside a run and
+    stays NaN; -0.0 / 0.0 may be exchanged, they are == for numpy)."""
+    name = "lemma: to_array(from_array(x)) == x"
+    qualname = "npstructures.runlengtharray:RunLengthArray.from_array"
+    serves = ["C14"]
+    assumed = ["callee contract from_array (proved: RunLengthArray.from_array/contract.*)", "callee contract to_array (proved: RunLengthArray.to_array/contract.*)",
+               "lemma partition-point (every position lies in a run; vf.proofs.lemmas)"]
+
+    def kinds(self):
+        return ["bits", "abstract"]
+
+    def run(self, ctx, kind):
+        from ..sym.arr import ElemSort
+        n, m = z3.Int("n"), z3.Int("m")
+        ctx.assume(n >= 1)
+        sort = z3.BitVecSort(64) if kind == "bits" else ElemSort
+        xf = z3.Function("x", z3.IntSort(), sort)
+        E = z3.Function("E", z3.IntSort(), z3.IntSort())
+        V = z3.Function("V", z3.IntSort(), sort)
+        out = z3.Function("out", z3.IntSort(), sort)
+        out_len = z3.Int("out_len")
+        NE = (lambda a_, b_: a_ != b_) if kind == "bits" else (lambda a_, b_: apply_binary("not_equal", a_, b_))
+        for ground, schemas in (contract_from_array(xf, n, E, V, m, NE), contract_to_array(E, V, m, out, out_len)):
+            for f in ground:
+                ctx.assume(f)
+            for nm, fn, ar in schemas:
+                ctx.assume_forall(nm, fn, arity=ar)
+        run_ = z3.Function("run", z3.IntSort(), z3.IntSort())
+        ctx.assume_forall("run (partition point of the boundaries)", lambda p_: z3.Implies(z3.And(0 <= p_, p_ < n), z3.And(0 <= run_(p_), run_(p_) < m, E(run_(p_)) <= p_, p_ < E(run_(p_) + 1))))
+        ctx.prove("post.same length", out_len == n)
+        p = z3.Int("p")
+        ctx.skolem(z3.And(0 <= p, p < n))
+        t = run_(p)
+        ctx.prove_then_assume("post.lemma: position p decodes to the element at the start of its run", out(p) == xf(E(t)), pool=[p, t, t + 1])
+        q = z3.Int("q")
+        ctx.skolem(z3.And(E(t) < q, q <= p))
+        ctx.prove_then_assume("post.no != step between the start of the run and p", z3.Not(NE(xf(q - 1), xf(q))), pool=[p, q, t, t + 1], live=[p])
+        if kind == "bits":
+            # induction on q from the start of the run: x(q) == x(E(t))
+            ctx.prove("chain.step: x(q-1) == x(E(t)) => x(q) == x(E(t))", z3.Implies(xf(q - 1) == xf(E(t)), xf(q) == xf(E(t))), pool=[q, q - 1])
+            ctx.assume_forall("chain (by induction on q; base q = E(t))", lambda q_: z3.Implies(z3.And(E(t) <= q_, q_ <= p), xf(q_) == xf(E(t))))
+            ctx.prove("post.decode(encode(x))[p] == x[p], bit for bit", out(p) == xf(p), pool=[p, t], live=[p])
